@@ -292,6 +292,155 @@ def _removed_keys(fn: ast.AST, var: Optional[str] = None, consts=None) -> set:
     return out
 
 
+def _simulate_dump(gs: ast.FunctionDef, aliases: Dict[str, str], append: ast.Call, n_entries: int) -> Optional[bool]:
+    """
+    Abstract run of __getstate__ on a model heap whose entry(j) has a handler for j < n_entries and the NULL handler otherwise:
+    True iff the appended entries are entry(0), .., entry(n_entries - 1) in this order, each once, and the routine gets past its
+    loop; None if a statement that touches the tracked values is outside the interpreted fragment.  Tracked values: small integers,
+    entries, the length of the list that is appended to.
+    """
+    lst = norm(append.func.value)
+    env: Dict[str, object] = {}
+    out: List[int] = []
+
+    class Stop(Exception):
+        pass
+
+    class Unknown(Exception):
+        pass
+
+    def is_entry_call(e: ast.AST) -> bool:
+        return isinstance(e, ast.Call) and aliases.get(norm(e.func), norm(e.func)) in ("entry", "lib.entry") and len(e.args) == 2
+
+    def ev(e: ast.AST):
+        if isinstance(e, ast.Constant) and isinstance(e.value, (int, bool)):
+            return e.value
+        if isinstance(e, ast.Name):
+            if e.id in env:
+                return env[e.id]
+            raise Unknown(e.id)
+        if is_entry_call(e):
+            j = ev(e.args[1])
+            if not isinstance(j, int):
+                raise Unknown(norm(e))
+            return ("entry", j)
+        if isinstance(e, ast.Call) and norm(e.func) == "len" and len(e.args) == 1 and norm(e.args[0]) == lst:
+            return len(out)
+        if isinstance(e, ast.Attribute) and e.attr == "event_handler":
+            v = ev(e.value)
+            if isinstance(v, tuple) and v[0] == "entry":
+                return "NULL" if v[1] >= n_entries or v[1] < 0 else ("handler", v[1])
+            raise Unknown(norm(e))
+        if norm(e) == "ffi.NULL":
+            return "NULL"
+        if isinstance(e, ast.BinOp) and isinstance(e.op, (ast.Add, ast.Sub)):
+            l, r = ev(e.left), ev(e.right)
+            if isinstance(l, int) and isinstance(r, int):
+                return l + r if isinstance(e.op, ast.Add) else l - r
+            raise Unknown(norm(e))
+        if isinstance(e, ast.Compare) and len(e.ops) == 1:
+            l, r = ev(e.left), ev(e.comparators[0])
+            op = e.ops[0]
+            if isinstance(op, (ast.Eq, ast.Is)):
+                return l == r
+            if isinstance(op, (ast.NotEq, ast.IsNot)):
+                return l != r
+            if isinstance(l, int) and isinstance(r, int):
+                return {ast.Lt: l < r, ast.LtE: l <= r, ast.Gt: l > r, ast.GtE: l >= r}.get(type(op))
+            raise Unknown(norm(e))
+        if isinstance(e, ast.UnaryOp) and isinstance(e.op, ast.Not):
+            return not ev(e.operand)
+        if isinstance(e, ast.BoolOp):
+            vals = [ev(v) for v in e.values]
+            return all(vals) if isinstance(e.op, ast.And) else any(vals)
+        raise Unknown(norm(e))
+
+    def touches(st: ast.AST) -> bool:
+        return any((isinstance(x, ast.Name) and x.id in env) or is_entry_call(x) or x is append for x in ast.walk(st))
+    fuel = [200]
+
+    def run(stmts: List[ast.stmt]) -> str:
+        for st in stmts:
+            fuel[0] -= 1
+            if fuel[0] < 0:
+                raise Stop()
+            if isinstance(st, ast.Assign) and len(st.targets) == 1 and isinstance(st.targets[0], ast.Name):
+                try:
+                    env[st.targets[0].id] = ev(st.value)
+                except Unknown:
+                    env.pop(st.targets[0].id, None)
+                    if is_entry_call(st.value) or any(is_entry_call(x) for x in ast.walk(st.value)):
+                        raise
+            elif isinstance(st, ast.AugAssign) and isinstance(st.target, ast.Name) and st.target.id in env:
+                v = ev(st.value)
+                cur = env[st.target.id]
+                if isinstance(cur, int) and isinstance(v, int) and isinstance(st.op, (ast.Add, ast.Sub)):
+                    env[st.target.id] = cur + v if isinstance(st.op, ast.Add) else cur - v
+                else:
+                    raise Unknown(norm(st))
+            elif isinstance(st, ast.Expr) and any(x is append for x in ast.walk(st)):
+                ents = set()
+                for x in ast.walk(append):
+                    if isinstance(x, ast.Name) and isinstance(env.get(x.id), tuple) and env[x.id][0] == "entry":
+                        ents.add(env[x.id][1])
+                    elif is_entry_call(x):
+                        ents.add(ev(x)[1])
+                if len(ents) != 1:
+                    raise Unknown("appended value")
+                out.append(ents.pop())
+            elif isinstance(st, ast.If):
+                if touches(st.test) or touches(st):
+                    r = run(st.body if ev(st.test) else st.orelse)
+                    if r != "next":
+                        return r
+            elif isinstance(st, ast.While):
+                while ev(st.test) if not (isinstance(st.test, ast.Constant) and st.test.value is True) else True:
+                    fuel[0] -= 1
+                    if fuel[0] < 0:
+                        raise Stop()
+                    r = run(st.body)
+                    if r == "break":
+                        break
+                    if r == "return":
+                        return r
+            elif isinstance(st, ast.For) and isinstance(st.target, ast.Name) and isinstance(st.iter, ast.Call) \
+                    and norm(st.iter.func) in ("count", "itertools.count", "range"):
+                a = [ev(x) for x in st.iter.args]
+                if norm(st.iter.func) == "range":
+                    seq = iter(range(*a)) if all(isinstance(x, int) for x in a) else None
+                else:
+                    import itertools
+                    seq = itertools.count(*a) if all(isinstance(x, int) for x in a) else None
+                if seq is None:
+                    raise Unknown(norm(st.iter))
+                for v in seq:
+                    fuel[0] -= 1
+                    if fuel[0] < 0:
+                        raise Stop()
+                    env[st.target.id] = v
+                    r = run(st.body)
+                    if r == "break":
+                        break
+                    if r == "return":
+                        return r
+            elif isinstance(st, ast.Break):
+                return "break"
+            elif isinstance(st, ast.Continue):
+                return "continue"
+            elif isinstance(st, ast.Return):
+                return "return"
+            elif touches(st) and not isinstance(st, (ast.Expr, ast.Delete)) and not (isinstance(st, ast.Assign)):
+                raise Unknown(norm(st))
+        return "next"
+    try:
+        run(gs.body)
+    except Unknown:
+        return None
+    except Stop:
+        return False
+    return out == list(range(n_entries))
+
+
 def check_heap_scheduler(src: Source, rep: Report, unit: CUnit) -> None:
     tree = src.parse(HEAP_PY)
     aliases = _aliases(tree)
@@ -352,12 +501,12 @@ def check_heap_scheduler(src: Source, rep: Report, unit: CUnit) -> None:
     handlers_try = [n for n in ast.walk(push) if isinstance(n, ast.Try)]
     RPH = Resolver(push)
 
-    def is_handle_of(e: ast.AST, h: str) -> bool:
+    def is_handle_of(e: ast.AST, h: str, R: Optional[Resolver] = None) -> bool:
         """the cffi handle kept for handler h: <table>[h], or a local whose every definition is <table>[h] or new_handle(h)"""
         if isinstance(e, ast.Subscript) and self_attr(e.value) and norm(e.slice) == h:
             return True
         if isinstance(e, ast.Name):
-            defs = [v for _, v in RPH.all_defs.get(e.id, [])]
+            defs = [v for _, v in (R or RPH).all_defs.get(e.id, [])]
             return bool(defs) and all((isinstance(v, ast.Subscript) and self_attr(v.value) and norm(v.slice) == h) or
                                       (isinstance(v, ast.Call) and aliases.get(norm(v.func), norm(v.func)).endswith("new_handle")
                                        and len(v.args) == 1 and norm(v.args[0]) == h) for v in defs)
@@ -591,8 +740,7 @@ def check_heap_scheduler(src: Source, rep: Report, unit: CUnit) -> None:
             ins = _lib_calls(loops[0], aliases, "insert")
             if len(ins) == 1 and len(tv) == 4 and len(ins[0].args) == 5:
                 a = ins[0].args
-                ok2 = norm(a[1]) == tv[0] and norm(a[2]) == tv[1] and isinstance(a[3], ast.Subscript) and norm(a[3].slice) == tv[2] \
-                    and norm(a[4]) == tv[3]
+                ok2 = norm(a[1]) == tv[0] and norm(a[2]) == tv[1] and is_handle_of(a[3], tv[2], Resolver(ss)) and norm(a[4]) == tv[3]
         rep.ob("R6.6-restore-stored-counters", ok2, Loc(HEAP_PY, ss.lineno, f"{cls.name}.__setstate__"),
                "re-insert (quotient, remainder, handler, counter)",
                "entries must be re-inserted with their stored times, handlers and *stored* counters")
@@ -650,6 +798,11 @@ def check_heap_scheduler(src: Source, rep: Report, unit: CUnit) -> None:
                     shape = len(in_loop) == 1 and len(before) == 1 and empty_atom(w.test) is False and "event_handler" in norm(w.test) \
                         and core_ in (["append", "advance", "fetch"],)
                     iterates = shape and len(incs) == 1 and len(starts) == 1 and len(other_writes) == 1
+        if not iterates and appends and ent:
+            # any other way of writing the read-out loop: run it on model heaps with 0, 1 and 3 entries
+            sims = [_simulate_dump(gs, aliases, appends[0], n_) for n_ in (0, 1, 3)]
+            if all(x is True for x in sims):
+                iterates = True
         rep.ob("R6.6-dump-every-entry", unconditional, Loc(HEAP_PY, gs.lineno, f"{cls.name}.__getstate__"),
                "heap_entries.append(...) unconditionally for every entry returned by the heap",
                "every entry still stored in the C heap must be pickled (also trashed ones and ones tied with the last returned time): "
